@@ -15,6 +15,7 @@ import (
 
 	"go.uber.org/nilaway"
 	"go.uber.org/nilaway/config"
+	"go.uber.org/nilaway/inference"
 	"golang.org/x/tools/go/analysis"
 	"golang.org/x/tools/go/analysis/checker"
 	"golang.org/x/tools/go/packages"
@@ -32,11 +33,12 @@ type Diag struct {
 
 // Fact is one exported package fact of any analyzer in NilAway's graph.
 type Fact struct {
-	Pkg      string `json:"pkg"`
-	Analyzer string `json:"analyzer"`
-	Type     string `json:"type"`
-	Sha      string `json:"sha"` // sha256 of the gob encoding
-	Size     int    `json:"size"`
+	Pkg      string                    `json:"pkg"`
+	Analyzer string                    `json:"analyzer"`
+	Type     string                    `json:"type"`
+	Sha      string                    `json:"sha"` // sha256 of the gob encoding
+	Size     int                       `json:"size"`
+	Sites    []inference.VerifSiteInfo `json:"sites,omitempty"`
 }
 
 // Result of one run.
@@ -131,7 +133,7 @@ func Run(o Options) (*Result, error) {
 			} else {
 				sha = "ENCODE-ERROR: " + err.Error()
 			}
-			res.Facts = append(res.Facts, Fact{Pkg: act.Package.PkgPath, Analyzer: act.Analyzer.Name, Type: fmt.Sprintf("%T", pf.Fact), Sha: sha, Size: size})
+			res.Facts = append(res.Facts, Fact{Pkg: act.Package.PkgPath, Analyzer: act.Analyzer.Name, Type: fmt.Sprintf("%T", pf.Fact), Sha: sha, Size: size, Sites: inference.VerifFactSites(pf.Fact)})
 		}
 	}
 	// g.All() order is not specified: canonicalise by package, keeping per-package report order
